@@ -306,17 +306,20 @@ S(id="T.anode_reset", props=["C13", "C14"], spec="parse.spec.c", harness="h_pars
   what="every rule's caller_anode is NULL when a parse starts (abstract-node names are allocated per parse, never shared between trees of different parses)")
 
 # ---------------- C19: hash table contents as an inductive invariant (bounded) ----------------
-HTABS = dict(spec="htabs.spec.c", mode="B", dfcc=False, instr=["--drop-unused-functions"], params={"quick": {"SIZE": 5}, "thorough": {"SIZE": 7}},
-             unwind_all={"quick": 7, "thorough": 9}, rec_unwind=2, timeout=1800, mem=40, cbmc=["--sat-solver", "cadical"],
-             bound="tables of 5 (thorough 7) slots, 4-key universe, arbitrary hash function; inductive, so histories of any length on a table of that size",
+HTABS = dict(spec="htabs.spec.c", mode="B", dfcc=False,
+             # below the growth threshold the expansion branch is dead: its body is replaced by assert(false); assume(false), so reaching it is a failed obligation
+             instr=["--remove-function-body", "expand_hash_table", "--generate-function-body", "expand_hash_table", "--generate-function-body-options", "assert-false-assume-false",
+                    "--drop-unused-functions"], params={"quick": {"SIZE": 7}, "thorough": {"SIZE": 13}},
+             unwind_all={"quick": 9, "thorough": 15}, rec_unwind=2, timeout=1800, mem=40, cbmc=["--sat-solver", "cadical"],
+             bound="tables of 7 (thorough 13) slots, 4-key universe, arbitrary hash function; inductive, so histories of any length on a table of that size",
              functions=["find_hash_table_entry", "remove_element_from_hash_table_entry", "empty_hash_table", "hash_table_elements_number"])
 S(id="HT.abs.find", props=["C19"], harness="h_abs_find", canaries=3, what="search / reserve+fill from an ARBITRARY well-formed table: find hits iff the key is in the abstract set, an absent key yields an EMPTY slot, "
   "well-formedness and the abstract set are maintained (deleted slots are re-used correctly)", **HTABS)
 S(id="HT.abs.remove", props=["C19"], harness="h_abs_remove", what="removal from an arbitrary well-formed table: exactly that key disappears, well-formedness kept", **HTABS)
 S(id="HT.abs.empty", props=["C19"], harness="h_abs_empty", what="emptying an arbitrary well-formed table leaves no element", **HTABS)
-for _s in SETS:
-    if _s["id"].startswith("HT.abs."):
-        _s["disabled"] = "work in progress"
+S(id="HT.abs.expand", props=["C19"], harness="h_abs_expand", what="growth from an arbitrary well-formed table keeps exactly the live elements, drops deleted marks and leaves the table below the threshold; "
+  "the nested expansion inside the re-insertions is unreachable (recursion unwinding assertion)",
+  **dict(HTABS, instr=["--drop-unused-functions"], params={"quick": {"SIZE": 5}, "thorough": {"SIZE": 5}}, unwind_all={"quick": 14, "thorough": 14}, rec_unwind=2, tier="thorough", disabled="work in progress"))
 
 # ---------------- C10: flags and verdicts (bounded) ----------------
 FLG = dict(spec="flags.spec.c", mode="B", dfcc=False, instr=["--drop-unused-functions"], params={"quick": {"NN": 2, "NRU": 2}, "thorough": {"NN": 2, "NRU": 3}},
